@@ -236,6 +236,17 @@ func (img *Image) SetByte(p string, i int, v byte) {
 	fl.Data = nd
 }
 
+// Append adds bytes behind the content (copying the content first).
+func (img *Image) Append(p string, b []byte) {
+	fl := img.Files[p]
+	if fl == nil {
+		return
+	}
+	nd := append([]byte(nil), fl.Data...)
+	fl.Data = append(nd, b...)
+	fl.SyncedLen = len(fl.Data)
+}
+
 func (img *Image) Size(p string) int {
 	if fl := img.Files[p]; fl != nil {
 		return len(fl.Data)
